@@ -27,3 +27,83 @@ extern "C" void lift_value()  { const C *b = vf_buf<C>(L); unsigned off = vf_u32
 extern "C" void lift_array()  { const C *b = vf_buf<C>(L); unsigned off = vf_u32(); if (off > L) off = L; run(b, off, '['); }
 extern "C" void lift_object() { const C *b = vf_buf<C>(L); unsigned off = vf_u32(); if (off > L) off = L; run(b, off, '{'); }
 extern "C" void lift_string() { const C *b = vf_buf<C>(L); unsigned off = vf_u32(); if (off > L) off = L; run(b, off, '"'); }
+
+// ---- C06/C07 lifting: functional counterexamples of a production are embedded in enclosing contexts and the REAL
+// JSON::Parse result is compared with a LIBERAL structural recogniser (brackets, commas, colons and string quoting must
+// be right; any run of other units is accepted as a scalar token).  Liberal leaves can only make the recogniser accept
+// more, so "recogniser rejects but Parse returns a defined value" is a definite all-or-nothing violation.
+static bool lws(C c) { return c == C(' ') || c == C('\n') || c == C('\t') || c == C('\r'); }
+static bool lval(const C *t, unsigned n, unsigned &p, unsigned depth);
+static void lskip(const C *t, unsigned n, unsigned &p) { while (p < n && lws(t[p])) ++p; }
+static bool lstr(const C *t, unsigned n, unsigned &p) {      // at the opening quote
+    ++p;
+    while (p < n) { if (t[p] == C('\\')) { p += 2; continue; } if (t[p] == C('"')) { ++p; return true; } ++p; }
+    return false;
+}
+static bool lval(const C *t, unsigned n, unsigned &p, unsigned depth) {
+    if (depth > 40 || p >= n) return false;
+    if (t[p] == C('[')) {
+        ++p; lskip(t, n, p);
+        if (p < n && t[p] == C(']')) { ++p; return true; }
+        while (true) {
+            if (!lval(t, n, p, depth + 1)) return false;
+            lskip(t, n, p);
+            if (p < n && t[p] == C(',')) { ++p; lskip(t, n, p); continue; }
+            if (p < n && t[p] == C(']')) { ++p; return true; }
+            return false;
+        }
+    }
+    if (t[p] == C('{')) {
+        ++p; lskip(t, n, p);
+        if (p < n && t[p] == C('}')) { ++p; return true; }
+        while (true) {
+            if (!(p < n && t[p] == C('"'))) return false;
+            if (!lstr(t, n, p)) return false;
+            lskip(t, n, p);
+            if (!(p < n && t[p] == C(':'))) return false;
+            ++p; lskip(t, n, p);
+            if (!lval(t, n, p, depth + 1)) return false;
+            lskip(t, n, p);
+            if (p < n && t[p] == C(',')) { ++p; lskip(t, n, p); continue; }
+            if (p < n && t[p] == C('}')) { ++p; return true; }
+            return false;
+        }
+    }
+    if (t[p] == C('"')) return lstr(t, n, p);
+    unsigned s = p;
+    while (p < n && !lws(t[p]) && t[p] != C(',') && t[p] != C(']') && t[p] != C('}') && t[p] != C(':') && t[p] != C('[') && t[p] != C('{') && t[p] != C('"')) ++p;
+    return p > s;
+}
+static bool liberal_valid(const C *t, unsigned n) {
+    unsigned p = 0; lskip(t, n, p);
+    if (!lval(t, n, p, 0)) return false;
+    lskip(t, n, p);
+    return p == n;
+}
+static void run_ctx(const C *b, unsigned off, const char *pre, const char *post) {
+    unsigned np = 0; while (pre[np]) ++np; unsigned nq = 0; while (post[nq]) ++nq;
+    unsigned n = np + (L - off) + nq;
+    C *e = (C *)vf_alloc(n * sizeof(C));
+    unsigned k = 0;
+    for (unsigned i = 0; i < np; i++) { e[k] = C(pre[i]); ++k; }
+    for (unsigned i = off; i < L; i++) { e[k] = b[i]; ++k; }
+    for (unsigned i = 0; i < nq; i++) { e[k] = C(post[i]); ++k; }
+    Value<C> v = JSON::Parse(e, SizeT(n));
+    bool ref = liberal_valid(e, n);
+    vf_assert(ref || v.IsUndefined(), 77);       // structurally invalid text must be rejected
+    vf_free(e);
+}
+static void run_all(const C *b, unsigned off, const char *open) {
+    char p1[16], p2[16], p3[16]; unsigned k;
+    const char *c1 = "", *c2 = "[", *c3 = "{\"a\":";
+    k = 0; for (const char *s = c1; *s; ++s) p1[k++] = *s; for (const char *s = open; *s; ++s) p1[k++] = *s; p1[k] = 0;
+    k = 0; for (const char *s = c2; *s; ++s) p2[k++] = *s; for (const char *s = open; *s; ++s) p2[k++] = *s; p2[k] = 0;
+    k = 0; for (const char *s = c3; *s; ++s) p3[k++] = *s; for (const char *s = open; *s; ++s) p3[k++] = *s; p3[k] = 0;
+    run_ctx(b, off, p1, "");
+    run_ctx(b, off, p2, "]");  run_ctx(b, off, p2, ",1]"); run_ctx(b, off, p2, "");
+    run_ctx(b, off, p3, "}");  run_ctx(b, off, p3, ",\"b\":1}"); run_ctx(b, off, p3, "");
+}
+extern "C" void lift_top_fn()    { const C *b = vf_buf<C>(L); run_all(b, 0, ""); }
+extern "C" void lift_value_fn()  { const C *b = vf_buf<C>(L); unsigned off = vf_u32(); if (off > L) off = L; run_all(b, off, ""); }
+extern "C" void lift_array_fn()  { const C *b = vf_buf<C>(L); unsigned off = vf_u32(); if (off > L) off = L; run_all(b, off, "["); }
+extern "C" void lift_object_fn() { const C *b = vf_buf<C>(L); unsigned off = vf_u32(); if (off > L) off = L; run_all(b, off, "{"); }
